@@ -1639,6 +1639,9 @@ func (sc *serverConn) processData(f *DataFrame) error {
 		if len(data) > 0 {
 			wrote, err := st.body.Write(data)
 			if err != nil {
+				// the octets that did not reach the body will never be read:
+				// return their connection-level flow control
+				sc.sendWindowUpdate(nil, int(f.Length)-wrote)
 				errMsg := fmt.Sprintf("stream body write error: %s", err)
 				return StreamError{id, ErrCodeStreamClosed, errMsg}
 			}
